@@ -15,6 +15,7 @@
 package internal
 
 import (
+	"errors"
 	"iter"
 	"maps"
 	"net/http"
@@ -48,16 +49,24 @@ func (r RawTime) Value() (t time.Time, valid bool) {
 // using the greatest positive integer the implementation can represent.
 type RawDeltaSeconds string
 
+// maxDeltaSeconds is the value used for delta-seconds that are too large to
+// represent (or whose use would overflow a [time.Duration]), as per
+// RFC 9111 §1.2.2.
+const maxDeltaSeconds = 1 << 31
+
 func (r RawDeltaSeconds) Value() (dur time.Duration, valid bool) {
 	if len(r) == 0 || r[0] == '-' {
 		return
 	}
 	seconds, err := strconv.ParseInt(string(r), 10, 64)
 	if err != nil {
-		return
+		if !errors.Is(err, strconv.ErrRange) {
+			return
+		}
+		seconds = maxDeltaSeconds
 	}
 
-	return time.Duration(seconds) * time.Second, true
+	return time.Duration(min(seconds, maxDeltaSeconds)) * time.Second, true
 }
 
 // RawCSVSeq is a string that represents a sequence of comma-separated values.
